@@ -13,7 +13,8 @@ Definition robs_eqb (a b : robs) : bool :=
   && opt_eqb item_eqb (r_cfg a) (r_cfg b).
 Definition obs_eqb (a b : obs) : bool :=
   Bool.eqb (o_evp a) (o_evp b) && sel_eqb (o_sel a) (o_sel b) && opt_lim_eqb (o_lim a) (o_lim b)
-  && (o_adm a =? o_adm b) && Bool.eqb (o_ready a) (o_ready b) && opt_eqb robs_eqb (o_rem a) (o_rem b).
+  && (o_adm a =? o_adm b) && Bool.eqb (o_ready a) (o_ready b) && opt_eqb robs_eqb (o_rem a) (o_rem b)
+  && (o_sync a =? o_sync b) && Bool.eqb (o_sent a) (o_sent b).
 
 Definition agree (fx fy fz : bool) (st : static) (str0 : strategy) (o0 : obs) (tr : list (ev * obs)) : bool :=
   obs_eqb (observe fx st (init (cfg st) str0)) o0
